@@ -76,17 +76,30 @@ def job_parseval(res, n, N=4):
     bld = field_build(); mod = load_module(bld, FIELD_MODS)
     snap, R, pre, plans, calib = field_world(bld, n, N, 0, (0,))
     ex = Exec(mod, snap, RealDom(), {'fftwf_execute': dft_exact(plans, (4, 8))}); st = State()
+    ex.unknown_is_feasible = True; ex.branch_timeout = 4000      # a branch on the transform's values whose feasibility is not decided in 4 s is followed (over-approximation, see Exec.feasible)
     if N == 8: rt = z3.Real('sqrt_half'); st.pc += [rt * rt == Fraction(1, 2), rt > 0]
     P = sym_profiles(ex, st, R, n, 1); Z = sym_impedance(ex, st, R, N)
-    s1 = ex.run1(st.fork(), 'e_csr', [R['field'], Fraction(0)]); spec = get_reals(ex, s1, s1.retval, N)
-    s2 = ex.run1(st.fork(), 'e_wake', [R['field']]); wt = get_reals(ex, s2, R['wp_padded'], N); account(res, ex, mod, [s1, s2])
+    paths = run_paths(ex, st.fork(), 'e_csr', [R['field'], Fraction(0)])      # every path of updateCSR: code that decides on the transform's values (drops bins, stops early) forks, and each path must meet Parseval
+    s2 = ex.run1(st.fork(), 'e_wake', [R['field']]); wt = get_reals(ex, s2, R['wp_padded'], N); account(res, ex, mod, paths + [s2])
     dq = Fraction(f32(f32(12.0) / f32(n - 1))); renorm0 = Fraction(f32(float(dq) * float(dq)))
     rho = P + [z3.RealVal(0)] * (N - n)
     F0 = sum(rho[1:], rho[0])
-    lhs = sum([spec[k] for k in range(1, N // 2)], z3.RealVal(0)) / renorm0
     rhs = sum([rho[x] * wt[x] for x in range(N)], z3.RealVal(0)) / 2 - Z[0][0] * F0 * F0 / 2
-    prove(res, 'Parseval, n=%d N=%d, exact DFT: sum over interior frequencies of spectrum/delta_q^2 == 1/2 * sum_x rho_x * (unscaled wake)_x - DC term, for every profile and complex impedance' % (n, N),
-          st.pc, lhs != rhs, key='parseval', cex_fn=lambda m: {'replay': 'parseval', 'n': n, 'rho': [mval(m, v) for v in P], 'z': [mval(m, c) for zz in Z for c in zz], 'lhs': mval(m, lhs), 'rhs': mval(m, rhs)})
+    zs = [c for zz in Z for c in zz]
+    for pi, s1 in enumerate(paths):
+        spec = get_reals(ex, s1, s1.retval, N)
+        lhs = sum([spec[k] for k in range(1, N // 2)], z3.RealVal(0)) / renorm0
+        pc = list(st.pc) + [c for c in s1.pc if not any(c.eq(d) for d in st.pc)]
+        def cex(m, lhs=lhs, pc=pc):
+            # exact DFT semantics: the model's profile is a real profile.  A second query asks for a counterexample that single precision resolves (bounded inputs, deviation of at least
+            # 1 % of the larger side); the first model is kept when that query does not finish.  Either model goes through the native replay.
+            s = z3.Solver(); s.add(*pc); s.add(*[z3.And(v >= 0, v <= 4) for v in P]); s.add(*[z3.And(v >= -4, v <= 4) for v in zs])
+            d = lhs - rhs; s.add(z3.Or(d > Fraction(1, 100) * (1 + rhs), -d > Fraction(1, 100) * (1 + rhs)), rhs >= 0)
+            r, dt = solve(s, 30000); res.queries += 1; res.solver_s += dt
+            if r == z3.sat: m = s.model()
+            return {'replay': 'parseval', 'n': n, 'N': N, 'rho': [mval(m, v) for v in P], 'z': [mval(m, c) for c in zs], 'lhs': mval(m, lhs), 'rhs': mval(m, rhs), 'resolved': r == z3.sat}
+        prove(res, 'Parseval, n=%d N=%d, exact DFT, path %d of %d of updateCSR: sum over interior frequencies of spectrum/delta_q^2 == 1/2 * sum_x rho_x * (unscaled wake)_x - DC term, for every profile and complex impedance' % (n, N, pi + 1, len(paths)),
+              pc, lhs != rhs, key='parseval', cex_fn=cex)
     witness(res, 'Parseval sides depend on Re Z_1', [], z3.BoolVal(occurs(lhs, Z[1][0])))
     # the Nyquist and upper bins: spectrum above N/2 is zero, the Nyquist bin carries Re Z_{N/2} |F_{N/2}|^2 but does not enter the wake
     prove(res, 'n=%d N=%d: unscaled wake does not depend on the Nyquist/upper impedance samples' % (n, N), st.pc, z3.Or(*[z3.substitute(w, *[(c, z3.Real(str(c) + 'a')) for k in range(N // 2, N) for c in Z[k]]) != w for w in wt]), key='wake-upper-half-unused')
@@ -110,6 +123,16 @@ def job_stored_intensity(res, n, N, spacing, buckets):
 
 def replayer(bld):
     def rp(path, c):
+        if c.get('replay') == 'parseval' and 'N' in c:
+            # both sides from the real kernels in single precision: spectrum of the interior bins against the energy the (unscaled) wake takes from the same profile
+            n, N = c['n'], c['N']; rho = [float(v) for v in c['rho']]; z = [float(v) for v in c['z']]
+            o = native_run(bld, {'n': n, 'N': N, 'spacing': 0, 'buckets': [0], 'ops': ['c', 'w'], 'prof0': rho, 'z': z, 'cutoff': 0.0}, 'c07p')
+            sc = o['wakescaling'][0] if isinstance(o['wakescaling'], list) else o['wakescaling']
+            dq = f32(f32(12.0) / f32(n - 1)); rn = f32(dq * dq)
+            lhs = sum(o['csr'][k] for k in range(1, N // 2)) / rn
+            rhs = sum(rho[x] * o['wake'][x] / sc for x in range(n)) / 2 - f32(z[0]) * sum(rho) ** 2 / 2
+            scale = max(abs(lhs), abs(rhs), sum(abs(rho[x] * o['wake'][x] / sc) for x in range(n)) / 2, 1e-300)
+            return (abs(lhs - rhs) > 1e-3 * scale, 'native (n=%d N=%d, profile %s): sum of the interior spectrum bins / delta_q^2 = %.6g, energy taken by the wake minus DC term = %.6g' % (n, N, rho, lhs, rhs))
         if c.get('replay') != 'csr': return (True, 'algebraic identity over the real kernels: %s' % str(c)[:200])
         n, N, sp, bk = c['n'], c['N'], c['spacing'], c['buckets']; nb = len(bk)
         import random as _r; rr = _r.Random(13)
